@@ -102,6 +102,31 @@ Theorem C03_district_length_bounds : forall d : dh_in, 0 <= d_area d -> 0 <= dh_
 Proof. exact dh_length_bounds. Qed.
 Print Assumptions C03_district_length_bounds.
 
+(* surface plant including end-use equipment: a valid user figure is used verbatim; otherwise the $250/kWth direct-use cost
+   (x adjustment factor x 1.12 x 1.15) plus the end-use equipment (chiller, heat pump, peaking boiler), or - with a power
+   plant - the correlation x adjustment factor x 1.12 x 1.15 x 1.02 x 1.10 plus the direct-use part of a cogeneration plant *)
+Theorem C03_plant_cost : forall p : plant_in,
+  (p_fixed_valid p = true -> plant_cost p = p_fixed p) /\
+  (p_fixed_valid p = false -> p_kind p <> PPower ->
+     plant_cost p == q112 * q115 * p_adj p * (250 # 1000000) * p_max_he p * 1000 + equipment_cost p) /\
+  (p_fixed_valid p = false -> p_kind p = PPower ->
+     plant_cost p == q112 * q115 * p_adj p * p_corr p * (102 # 100) * (110 # 100)
+                     + (if p_cogen p then q112 * q115 * p_adj p * (250 # 1000000) * p_max_hp_over_eff p * 1000 else 0)).
+Proof. exact plant_cost_cases. Qed.
+Print Assumptions C03_plant_cost.
+
+Theorem C03_plant_split : forall p : plant_in, p_kind p = PPower ->
+  capex_elec_plant p + capex_heat_plant p == plant_cost p /\
+  (p_fixed_valid p = false -> p_ratio_provided p = false -> ~ plant_cost p == 0 ->
+     plant_ratio p * plant_cost p == capex_elec_plant p).
+Proof. exact plant_split. Qed.
+Print Assumptions C03_plant_split.
+
+Theorem C03_equipment_verbatim : forall p : plant_in,
+  p_eq_provided p = true -> (p_kind p = PChiller \/ p_kind p = PHeatPump) -> equipment_cost p = p_eq_in p.
+Proof. exact equipment_verbatim. Qed.
+Print Assumptions C03_equipment_verbatim.
+
 (* ---- non-vacuity: a run with ITC, grant and redrilling ---- *)
 Definition exk : cost_in :=
   {| k_ppwc_valid := false; k_ppwc := 0; k_piwc_provided := false; k_piwc := 0; k_nprod := 2; k_ninj := 1;
@@ -116,4 +141,10 @@ Definition exk : cost_in :=
      k_is_chiller := false; k_chillercapex := 0; k_chilleropex_provided := false; k_chilleropex_in := 0; k_dh_oam := 0;
      k_redrill := 2; k_life := 30; k_annual_fee := 0; k_taxrelief := 1#10 |}.
 Example exk_hyps : k_total_valid exk = false /\ k_ritc_provided exk = true /\ 0 < k_redrill exk /\ 0 < ccap exk /\ 0 < coam exk.
+Proof. repeat split; vm_compute; reflexivity. Qed.
+Definition exp : plant_in :=
+  {| p_kind := PPower; p_cogen := true; p_fixed_valid := false; p_fixed := 0; p_adj := 3#2; p_max_he := 40;
+     p_eq_provided := false; p_eq_in := 0; p_max_eq := 0; p_max_peaking := 0; p_corr := 20; p_max_hp_over_eff := 12;
+     p_ratio_provided := false; p_ratio_in := 0 |}.
+Example exp_hyps : p_kind exp = PPower /\ 0 < plant_cost exp /\ 0 < plant_ratio exp /\ plant_ratio exp < 1.
 Proof. repeat split; vm_compute; reflexivity. Qed.
